@@ -149,6 +149,8 @@ fn tag_call_mismatch(exp: &Outcome, obs: &Obs, mode: Mode) -> Vec<&'static str> 
         }
         (Outcome::Value(v), Obs::PanicString(msg)) => match classify_panic(msg) {
             Some(PanicKind::NoMatch) => vec!["C01", "C07"],
+            // a pattern other than the answering one (e.g. a later one without matcher function) got involved
+            Some(PanicKind::NoMatcherFn) => vec![sel],
             Some(PanicKind::CannotReturnTwice) | Some(PanicKind::NoOutput) | Some(PanicKind::Explicit) => {
                 vec!["C02"]
             }
@@ -186,6 +188,10 @@ fn tag_call_mismatch(exp: &Outcome, obs: &Obs, mode: Mode) -> Vec<&'static str> 
             } else {
                 vec!["C02"]
             }
+        }
+        // a matcher that should not have been consulted (a pattern after the answering one) was run
+        (Outcome::Value(_), Obs::UserPanic("matcher")) | (Outcome::MockPanic { .. }, Obs::UserPanic("matcher")) => {
+            vec![sel, "C11"]
         }
         (Outcome::UserPanic(_), _) | (_, Obs::UserPanic(_)) => vec!["C08", "C11"],
         _ => vec!["C07"],
